@@ -199,8 +199,9 @@ def confirmed(ctx, scenario, clause, run_and_validate, tries=2):
     as UNCONFIRMED, and does not change the exit code."""
     cid = clause.split(' ')[0]
     for k in range(tries):
-        sc = dict(scenario); sc['id'] = 1
-        bad = run_and_validate([sc], 'confirm%d' % k)
+        # (a family whose hit is a matter of chance per connection asks for many copies per replay: confirm_copies)
+        scs = [dict(scenario, id=i + 1) for i in range(scenario.get('confirm_copies', 1))]
+        bad = run_and_validate(scs, 'confirm%d' % k)
         if any(c.split(' ')[0] == cid for cl in bad.values() for c in cl):
             return True
     ctx.extra.setdefault('unconfirmed_clauses', []).append(clause[:200])
